@@ -503,3 +503,88 @@ PROPS["C08"] = {
     "trusted": ["real file-system semantics beyond: create fails in a missing directory, /dev/full accepts open but no data"],
     "assumptions": ["PARTIAL: a write failing half-way on a regular file (disk full) is OS behaviour outside the file-system model"],
 }
+
+
+# ---------------------------------------------------------------- debugger sessions (C09–C13, C16)
+def dbg_classify(rq, impl):
+    return impl.split(" ", 1)[0] + ":" + impl.rsplit(" | ", 1)[-1]
+
+
+def dbg_nontrivial(rq, impl):
+    # a session that executed at least one instruction and read at least one command
+    try:
+        f = impl.split(" | ")
+        return int(f[3].split(" ")[0]) > 0 and int(f[4].split(" ")[0]) > 0
+    except Exception:
+        return True
+
+
+_DBG_COMMON_TRUSTED = [
+    "debugger output is modelled in --minimal mode only, as the list of non-empty stderr lines; help text and miette output are collapsed to markers; the fancy tables, colours and LineTracker newlines are not modelled",
+    "sessions here run `.orig`/`.fill` sources (labels and .break included); statement texts and the symbol table of those sources are supplied by construction (C17 covers real sources)",
+    "scripts are delivered through --command already split; command-line parsing is C14",
+]
+
+
+def _dbg(theorems, rule, extra_assumptions=()):
+    return {
+        "theorems": theorems,
+        "compare": cmp_default,
+        "classify": dbg_classify,
+        "nontrivial": dbg_nontrivial,
+        "group": lambda d: d["impl"].rsplit(" | ", 1)[-1] + ":" + d["impl"].split(" ", 1)[0],
+        "rule": rule + (" Observed per session and compared with the model: outcome and exit status, final registers/PC/CC, "
+                        "every memory word against the loaded image, stdout, input consumed, the sequence of executed "
+                        "addresses (count + hash), the interleaving of command reads and executions (count + hash), the "
+                        "breakpoint list with predefined/run-time marks, every non-empty stderr line, and the property's "
+                        "own verdict evaluated on the implementation. Non-trivial: executed ≥ 1 instruction and read ≥ 1 command."),
+        "trusted": _DBG_COMMON_TRUSTED,
+        "assumptions": list(extra_assumptions),
+    }
+
+
+PROPS["C09"] = _dbg(
+    ["Lace.C09.debug_transparent", "Lace.C09.iter_nonmut", "Lace.C09.detached_eq_plain",
+     "Lace.C09.nextAction_nonmut", "Lace.DbgProofs.runCommand_nonmut"],
+    "generated terminating programs (loops, nested JSR/RET and CALL/RETS subroutines, self-modifying stores, traps with "
+    "input, all endings incl. exceptions) with random .break directives and labels × random scripts of non-mutating "
+    "commands with arbitrary arguments (step, step into k incl. 0 and 65535, step out, continue, break add/remove at "
+    "absolute/label/PC-offset locations incl. out-of-range ones, break list, print, registers, assembly, echo), ended by "
+    "quit, exit or end of input; the same image is also run without the debugger and the two final observables compared "
+    "(verdict plain=same).",
+    ["I8: with program input present the script ends the debugger itself (quit/exit), otherwise the debugger would read the program's input as commands",
+     "transparency is claimed for scripts ending in quit / end of input; sessions containing `exit` end the program early by design and are only compared with the model"])
+PROPS["C10"] = _dbg(
+    ["Lace.C10.paused_machine_on_trajectory", "Lace.C10.stepInto_iter", "Lace.C10.continue_iter",
+     "Lace.C10.stepOver_iter", "Lace.C10.stepOver_pauses", "Lace.C10.stepOut_iter", "Lace.C10.cmd_step",
+     "Lace.C10.cmd_stepInto", "Lace.C10.cmd_refused_at_halt"],
+    "generated programs and hand-written ones (self-loop, counted loop, recursive JSR and CALL subroutines, HALT in the "
+    "middle, jumps to xFFFF / below origin / above user space, high origin) × random scripts over {step, step into k with "
+    "k ∈ {0,1,2,3,7,65535}, step out, continue, break add/remove} ending in exit; verdict adv=same: the paused machine "
+    "equals an undebugged run of the image advanced by exactly the number of executed instructions.")
+PROPS["C11"] = _dbg(
+    ["Lace.C11.bp_sorted_nodup", "Lace.C11.bp_pause_before_exec", "Lace.C11.exec_rearms",
+     "Lace.C11.no_bp_no_pause", "Lace.C11.runCommand_bps"],
+    "programs with loops incl. a one-instruction self-loop, .break before the first / between any two / after the last "
+    "statement, doubled, together with labels × scripts of break add / remove / list at absolute, label and PC-offset "
+    "locations interleaved with every resuming command; pause points are observable through the command/execution "
+    "interleaving, the `Reached::Breakpoint` lines and the breakpoint list.")
+PROPS["C12"] = _dbg(
+    ["Lace.C12.initial_never_mutated", "Lace.C12.reset_restores", "Lace.C12.reset_then_run_eq_fresh_run",
+     "Lace.C12.iter_initial"],
+    "histories of stepping, continue, move (registers and memory incl. code, below the origin refused, stack area), goto, "
+    "reset and self-modifying stores followed by `reset; exit` (verdict reset=ok: registers, PC, CC and all 65,536 words "
+    "equal the loaded image) or `reset; quit` (the rest of the run is compared with the model).")
+PROPS["C13"] = _dbg(
+    ["Lace.C13.move_reg_frame", "Lace.C13.move_mem_frame", "Lace.C13.resolveUser_spec", "Lace.C13.oob_refused",
+     "Lace.C13.inspect_readonly"],
+    "after 0–2 steps, 1–4 probe commands move / goto / break add / break remove / print / assembly with wild locations "
+    "(absolute addresses across the whole address space incl. 0, orig−1, xFDFF, xFE00, xFFFF; label ± offsets up to "
+    "±32767; PC offsets at the signed 16-bit boundaries; unknown labels), every register, boundary values; then "
+    "`registers`, `break list`, `exit`: the full machine, breakpoint list and error lines are compared.")
+PROPS["C16"] = _dbg(
+    ["Lace.C16.no_spin", "Lace.C16.iter_mono", "Lace.C16.work_bound", "Lace.DbgProofs.nextAction_no_cmd"],
+    "programs that jump to xFFFF, below the origin, to xFE00 and above, or park on HALT (and ordinary ones) × scripts of "
+    "resuming commands (continue, step, step out, step into k), break add and goto issued wherever the program is, "
+    "followed by end of input or quit, under a large iteration budget; verdict progress=ok: iterations counted by the "
+    "run-loop tick hook ≤ executed instructions + commands read + 1.")
